@@ -70,7 +70,7 @@ class Ctx:
         print(f"[{self.pid} {time.time() - self.t0:6.1f}s]", *a, flush=True)
 
     # ------------------------------------------------------------------ model checking
-    def mc(self, module, constants, invariants, workers=NPROC, timeout=900, expect_violation=False, label=None,
+    def mc(self, module, constants, invariants, workers=NPROC, timeout=2400, expect_violation=False, label=None,
            init_next=None, env=None):
         cfg = ""
         if init_next:
@@ -106,7 +106,7 @@ class Ctx:
             self.log(f"model checked {label}: {r['distinct']} distinct states ({r['wall']:.1f}s)")
         return r
 
-    def gen(self, module, constants, out_file, timeout=600):
+    def gen(self, module, constants, out_file, timeout=1800):
         """run a Gen_* module (ASSUME-driven emission of cases to IOEnv.GEN_FILE)"""
         cfg = "INIT GInit\nNEXT GNext\n"
         for k, v in constants.items():
@@ -119,7 +119,7 @@ class Ctx:
         return out_file
 
     # ------------------------------------------------------------------ drivers
-    def drive(self, driver, cases, hashseeds=(0,), procs=NPROC, opts=None, timeout=1800, env=None):
+    def drive(self, driver, cases, hashseeds=(0,), procs=NPROC, opts=None, timeout=5400, env=None):
         """cases: list of json-able case dicts.  Spawns `procs` workers
         (python harness/worker.py driver in out opts) and returns the path of the merged trace."""
         d = self.work / f"drive_{driver}_{len(list(self.work.glob('drive_*')))}"
@@ -158,7 +158,7 @@ class Ctx:
 
     # ------------------------------------------------------------------ validation
     def validate(self, trace_file, cases_by_id=None, driver=None, opts=None, shards=NPROC, module="MCTrace",
-                 eps="EpsDefault", nontrivial=None, timeout=1800, sparse=False, n_records=None):
+                 eps="EpsDefault", nontrivial=None, timeout=5400, sparse=False, n_records=None):
         """validate histories; book-keep verdicts; returns verdict dict.
         sparse: the trace spec prints a verdict only for rejected / deviating records"""
         v, _, st, _ = tlc.validate_traces(trace_file, self.work / f"val_{len(list(self.work.glob('val_*')))}",
